@@ -608,10 +608,12 @@ func vfScenarios(tier string, faults bool) []*vfRouteScenario {
 	out[len(out)-1].Proxies, out[len(out)-1].PlaceT, out[len(out)-1].PlaceS, out[len(out)-1].LatePeers = 2, []int{0, 1}, []int{0}, true
 	// one instance: target shard 2 opens a new stream while its old one is still alive (the new sender registers before
 	// the old one has deregistered), then the old stream ends; the shard holds nothing unconfirmed at that moment
+	// (one watermark-only batch may be broadcast at any point: before the reconnect it is what a per-cluster view of
+	// the delivery channels would be built from)
 	add("1x2-target-reconnects-in-place", 1, 2, [][]vfBatch{{
 		{IDs: []int64{10}, Tgt: []int{2}, High: 11},
 		{IDs: []int64{11}, Tgt: []int{2}, High: 12},
-	}}, 0, 0)
+	}}, 1, 0)
 	out[len(out)-1].Overlap, out[len(out)-1].OverlapInPlace = true, 2
 	// three instances: target shard 2 reconnects to another instance (n3) while its old stream on n2 is still alive
 	// (both instances claim the shard for a while), then the old stream ends
